@@ -35,6 +35,8 @@ WORLDS = [
     ("set order keyed 2", {}, "keyed:2", 0),
     ("set order keyed 3", {}, "keyed:3", 0),
     ("str hash salt 1", {}, "fifo", 1),
+    ("indices 99,100", {"index": 99, "label": 99, "coefficient": 99, "constant": 99, "mesh": 99}, "fifo", 0),
+    ("indices 999,1000", {"index": 999, "label": 999}, "fifo", 0),
     ("all", {"mesh": 98, "coefficient": 8, "constant": 9, "index": 7, "label": 99}, "keyed:4", 2),
 ]
 
@@ -85,6 +87,16 @@ class Builder:
         e = W.op("IndexSum", body, W.multiindex(i))
         e2 = W.op("IndexSum", W.op("Product", fi(fv[1], j), fi(fv[0], j)), W.multiindex(j))
         out["indices and a zero with a free index"] = W.form([W.integral(W.op("Sum", e, W.op("Sum", e2, fi(fv[0], 1))), "cell", m[0])])
+        # 3b. commutative operands that are equal up to the numbering of their indices / labels (ties of the
+        #     canonical operand order), in a context that tells the indices apart
+        G = W.coefficient(W.space(m[0], W.element("P", 1, (2, 2))), cnt("coefficient", 9))
+        tied = prod(fi(fv[0], i), fi(fv[0], j))
+        body = W.op("Product", tied, fi(G, i, j), ufl_shape=(), ufl_free_indices=(), ufl_index_dimensions=())
+        e3 = W.op("IndexSum", W.op("IndexSum", body, W.multiindex(j)), W.multiindex(i))
+        tied_sum = add(fi(fv[0], i), fi(fv[0], j))
+        body2 = W.op("Product", tied_sum, fi(G, i, j), ufl_shape=(), ufl_free_indices=(), ufl_index_dimensions=())
+        e4 = W.op("IndexSum", W.op("IndexSum", body2, W.multiindex(j)), W.multiindex(i))
+        out["operands tied up to index numbers"] = W.form([W.integral(W.op("Sum", e3, e4), "cell", m[0])])
         # 4. variables / labels
         l0, l1 = W.label(cnt("label", 0)), W.label(cnt("label", 1))
         va = W.op("Variable", f[0], l1)
